@@ -258,6 +258,43 @@ def check_generic(pid, tier, igns, modes=('keygen', 'std', 'safe'), pvals=None, 
     return finish(rep, pid, tier, mcs, cat_states, traces, {'named_deviations': devs, 'groups': len(groups)})
 
 
+def extra_for_C01(rep, tier):
+    """C01 on the key catalogue: every call of every group through real std/safe caches under every keymap configuration;
+    the value returned must be the function's own value for that call (rejections go to the cache engine's report).
+    Returns a coverage dict."""
+    work = common.scratch('key01')
+    rng = random.Random(common.seed() + 1)
+    # (no ignore specification: the stub's value depends on every argument it receives)
+    consts = base_consts(tier, {0}, pvals={1, 2, 3, 4, 5, 7} if tier == 'thorough' else {1, 2, 3})
+    groups, cat_states = tlc_catalogue(consts, work)
+    # one tuple argument against the same values passed separately; a positional string equal to a keyword name
+    for over in (dict(SigIds={4, 5, 28}, PVals={1, 2, 10}, KwNames={'z'}, MAXP=2, MAXK=1),
+                 dict(SigIds={28, 29}, PVals={1, 6}, KwNames={'x', 'z'}, MAXP=2, MAXK=1)):
+        gx, stx = tlc_catalogue(dict(base_consts(tier, {0}), Deviations=set(), **over), work)
+        cat_states += stx
+        for g in gx:
+            g['allkms'] = True
+        groups += gx
+    traces = real_traces(groups, rng, tier, modes=('std', 'safe'))
+    strip = [{k: t[k] for k in ('sig', 'ign', 'km', 'cached', 'events')} for t in traces]
+    verdicts, st = common.validate_traces('KeyTrace', strip, ['C01'], per_slice=max(8, len(strip) // common.NCPU + 1))
+    nrej = 0
+    for t, v in zip(traces, verdicts):
+        if v is None:
+            continue
+        if any(c.startswith('ORACLE') for c in v[1]):
+            raise common.MachineryError('ORACLE clause rejected a key-catalogue trace: %s' % (v,))
+        nrej += 1
+        e = t['events'][v[0] - 1]
+        rep.reject(signature(t, v, 'C01'), {'sig': t['sig'], 'ign': t['ign'], 'sid': t['meta']['sid'], 'iid': t['meta']['iid'],
+                                           'source': t['meta']['src'], 'ignore': t['meta']['ignore'], 'keymap': t['km'],
+                                           'variant': t['meta']['variant'], 'mode': t['meta']['mode'], 'event_index': v[0],
+                                           'clauses': v[1], 'event': e, 'replay': 'key',
+                                           'calls_before': [x['call'] for x in t['events'][:v[0]]][-40:]})
+    return {'groups': len(groups), 'traces': len(traces), 'events': st['events'], 'states': st['states'] + cat_states,
+            'rejected': nrej, 'wall_s': round(st['wall'], 1)}
+
+
 def check_C09(tier):
     return check_generic('C09', tier, {0}, pvals=None if tier == 'thorough' else {1, 5})
 
@@ -266,7 +303,9 @@ def check_C10(tier):
     # extra: a positional string equal to a keyword NAME on signatures whose key keeps positionals (f('x', 1) vs f(x=1)):
     # without a sentinel the flat keys coincide by design, with any sentinel object they must differ
     return check_generic('C10', tier, {0}, pvals={1, 2, 3, 4, 5, 7} if tier == 'thorough' else {1, 2, 3, 7},
-                         extras=[dict(SigIds={28, 29}, PVals={1, 6}, KwNames={'x', 'z'}, MAXP=2, MAXK=1)])
+                         extras=[dict(SigIds={28, 29}, PVals={1, 6}, KwNames={'x', 'z'}, MAXP=2, MAXK=1),
+                                 # one tuple argument against the same values as separate arguments: f((1, 2)) vs f(1, 2)
+                                 dict(SigIds={4, 5, 28}, PVals={1, 2, 10}, KwNames={'z'}, MAXP=2, MAXK=1)])
 
 
 def check_C11(tier):
